@@ -537,8 +537,26 @@ def implicit_link_rule(r, ctx, rt, he):
     r.check(any(l == "true" for d, l in known), "handle_event/implicit-link-only-for-attached-remote", ins[0].loc(), "the implicit link is recorded only for a remote the tracker still knows (has_remote)",
             "links.insert for the target of a response is not guarded by remote_tracker.has_remote: the late response of a remote that was removed creates a link that nothing can ever remove (and that is counted)")
     r.check(all(any(dd == d and ll == l for dd, ll, _ in dom_guards(he, sp[0].block)) for d, l in pair_tests), "handle_event/Linked-under-the-same-test", sp[0].loc(), "the Linked frame is queued under the same test as the registration")
-    first = [c for c in pws if he.dominates(sp[0].block, c.block)]
-    r.check(len(first) == 1 and he.dominates(ins[0].block, sp[0].block), "handle_event/linked-before-data", sp[0].loc(), "insert, then push_special(Linked), then push_write on the implicit-link path",
-            "data is queued before the implicit Linked")
+    # order on the implicit-link path: insert, push_special(Linked), then the data - as a path property (the data may be queued after the two
+    # branches have merged): every way on from the Linked reaches a push_write, and no push_write for this response can come before it
+    after = [c for c in pws if he.reaches(sp[0].block, {c.block}) and c.block != sp[0].block]
+    follows = bool(after) and he.must_pass(he.succ[sp[0].block], {c.block for c in after}, targets=set(he.exits()))[0]
+    before = [c for c in pws if he.reaches(c.block, {sp[0].block}) and c.block != sp[0].block]
+    r.check(follows and not before and he.dominates(ins[0].block, sp[0].block), "handle_event/linked-before-data", sp[0].loc(), "insert, then push_special(Linked), then push_write on the implicit-link path",
+            "data is queued before the implicit Linked" if before else "the implicit Linked is not followed by the data on every path")
+    # the pair handed to Writes::from is (linked, data): what flows into each component
+    pair_ok = None
+    for c in he.calls:
+        if c.via_name == "from" and "Writes" in (c.defpath or "") and c.args:
+            pl = c.args[0]
+            for i_, j_, p_, rv_, line_ in he.assigns():
+                if rv_[0] == "agg" and rv_[1].get("tuple") and len(rv_[2]) == 2 and he.copy_root(pl) == p_[0]:
+                    s0 = he.sources(rv_[2][0], stop_at_calls=False)
+                    s1 = he.sources(rv_[2][1], stop_at_calls=False)
+                    f0 = any(x[0] == "call" and x[1].name == "push_special" for x in s0) and not any(x[0] == "call" and x[1].name == "push_write" for x in s0)
+                    f1 = any(x[0] == "call" and x[1].name == "push_write" for x in s1) and not any(x[0] == "call" and x[1].name == "push_special" for x in s1)
+                    pair_ok = (pair_ok is None or pair_ok) and f0 and f1 if (f0 or f1 or any(x[0] == "call" and x[1].name in ("push_special", "push_write") for x in s0 + s1)) else pair_ok
+    r.check(pair_ok is True, "handle_event/pair-order", sp[0].loc(), "Writes::from((linked, data)): the first component comes from push_special, the second from push_write",
+            "the pair handed to Writes::from is not (linked, data): the data would be written before `linked`")
     r.check("SpecialAction::Linked(id)" in describe_operand(he, sp[0].args[1]), "handle_event/linked-same-lane", sp[0].loc(), "the implicit Linked names the event's lane")
     return sp, pws
